@@ -44,3 +44,56 @@ Example C02_conforming_example : forall (kdf : Z -> Z -> Z -> Z),
   let e := {| e_l1 := 5; e_l2 := 7; e_l1key := K1 kdf 0 4; e_l2key := K2 kdf 0 5 7 |} in
   conforming kdf 0 e /\ covers e 3 30.
 Proof. intros kdf e. unfold conforming, covers, e; cbn [e_l1 e_l2 e_l1key e_l2key]. repeat split; try lia. Qed.
+
+(* ---- tie to the source (group "chain"): the whole bodies of _gkdi.compute_kdf_context, compute_l1_key and compute_l2_key,
+   regenerated as syntax on every run (gen/F_gkdi.v) and run in the world Flow/World_gkdi_keys.v (kdf := the Crypto
+   record; compute_kdf_context as a callee := the model function), ARE the model functions the theorems above are about.
+   `u` is os.urandom (a parameter of the world, not used by these three functions). ---- *)
+From V Require Import Prelude.PyAst Prelude.PyWorld gen.F_gkdi Flow.World_gkdi_keys Proofs.Flow_gkdi_keys_chain.
+Theorem C02_flow_compute_kdf_context : forall c u fuel g l0 l1 l2,
+  run (W c u) fuel k_flow_compute_kdf_context [VO (OUuid g); VI l0; VI l1; VI l2]
+  = (let* b := compute_kdf_context g l0 l1 l2 in Ok (VB b)).
+Proof. exact flow_compute_kdf_context. Qed.
+Print Assumptions C02_flow_compute_kdf_context.
+Theorem C02_flow_compute_l1_key : forall c u fuel sd g l0 rk h,
+  run (W c u) fuel k_flow_compute_l1_key [VB sd; VO (OUuid g); VI l0; VB rk; VO (OHash h)]
+  = (let* b := compute_l1_key c h sd g l0 rk in Ok (VB b)).
+Proof. exact flow_compute_l1_key. Qed.
+Print Assumptions C02_flow_compute_l1_key.
+(* compute_l2_key, against the regenerated kernel the model instantiates (K := res bytes, kdf := kdfK): for every kernel
+   fuel n that suffices and every interpreter fuel above it *)
+Theorem C02_flow_compute_l2_key_kernel : forall c u h l1 l2 e (n fuel : nat), (n < fuel)%nat ->
+  k_compute_l2_key (kdfK c h (gke_rkid e) (gke_l0 e)) n l1 l2 (gke_l1 e) (gke_l2 e) (Ok (gke_l1_key e)) (Ok (gke_l2_key e))
+    <> Raise OutOfFuel ->
+  run (W c u) fuel k_flow_compute_l2_key [VO (OHash h); VI l1; VI l2; VO (OEnv e)]
+  = (let* b := match k_compute_l2_key (kdfK c h (gke_rkid e) (gke_l0 e)) n l1 l2 (gke_l1 e) (gke_l2 e)
+                       (Ok (gke_l1_key e)) (Ok (gke_l2_key e)) with Ok r => r | Raise x => Raise x end in Ok (VB b)).
+Proof. exact flow_l2_kernel. Qed.
+Print Assumptions C02_flow_compute_l2_key_kernel.
+(* against the model function: whenever the model's own fuel (L2_FUEL) suffices, every larger interpreter fuel gives the
+   model's answer *)
+Theorem C02_flow_compute_l2_key : forall c u fuel h l1 l2 e,
+  (L2_FUEL < fuel)%nat -> compute_l2_key c h l1 l2 e <> Raise OutOfFuel ->
+  run (W c u) fuel k_flow_compute_l2_key [VO (OHash h); VI l1; VI l2; VO (OEnv e)]
+  = (let* b := compute_l2_key c h l1 l2 e in Ok (VB b)).
+Proof. exact flow_compute_l2_key. Qed.
+Print Assumptions C02_flow_compute_l2_key.
+(* which it does for every envelope with indices up to 100 (MS-GKDI: up to 31), whatever is requested *)
+Theorem C02_flow_l2_fuel_enough : forall c h l1 l2 e,
+  gke_l1 e <= 100 -> gke_l2 e <= 100 -> compute_l2_key c h l1 l2 e <> Raise OutOfFuel.
+Proof. exact l2_fuel_enough. Qed.
+Print Assumptions C02_flow_l2_fuel_enough.
+
+(* composed with C02_model_chain / C02_noncover: what the SOURCE computes, with the loops run by the interpreter *)
+Theorem C02_flow_chain : forall c u fuel h (top : res bytes) e l1 l2,
+  conforming (kdfK c h (gke_rkid e) (gke_l0 e)) top (env_of e) ->
+  0 <= l1 <= 31 -> 0 <= l2 <= 31 -> covers (env_of e) l1 l2 -> (L2_FUEL < fuel)%nat ->
+  run (W c u) fuel k_flow_compute_l2_key [VO (OHash h); VI l1; VI l2; VO (OEnv e)]
+  = (let* b := K2 (kdfK c h (gke_rkid e) (gke_l0 e)) top l1 l2 in Ok (VB b)).
+Proof. exact flow_compute_l2_key_chain. Qed.
+Print Assumptions C02_flow_chain.
+Theorem C02_flow_noncover : forall c u fuel h e l1 l2,
+  ~ (0 <= l1 <= 31 /\ 0 <= l2 <= 31 /\ (gke_l1 e > l1 \/ (gke_l1 e = l1 /\ gke_l2 e >= l2))) -> (0 < fuel)%nat ->
+  run (W c u) fuel k_flow_compute_l2_key [VO (OHash h); VI l1; VI l2; VO (OEnv e)] = Raise ValueError.
+Proof. exact flow_compute_l2_key_noncover. Qed.
+Print Assumptions C02_flow_noncover.
